@@ -57,9 +57,21 @@ type Fault struct {
 	Times    int
 	Err      error
 	DropConn bool
-	seen     int
+	// InRows: a matching query is executed (a locking read takes its locks) and fails while its result is
+	// streamed, after AfterRows rows (error packet in the result set: query interrupted, max_execution_time);
+	// the connection stays usable. Other statements fail at their start as usual.
+	InRows    bool
+	AfterRows int
+	seen      int
 	fired    int
 }
+
+type rowFault struct {
+	err   error
+	after int
+}
+
+func (r *rowFault) Error() string { return r.err.Error() }
 
 // Fired reports how often the fault was injected.
 func (f *Fault) Fired() int { return f.fired }
@@ -153,6 +165,13 @@ func (s *Server) begin(c *conn, kind, query string, args []Value) (idx int, e En
 				injected = myErr(1205, "Lock wait timeout exceeded; try restarting transaction (injected)")
 			}
 			drop = f.DropConn
+			if f.InRows && (kind == "Q" || kind == "PQ") {
+				if f.Err == nil {
+					injected = myErr(1317, "Query execution was interrupted (injected)")
+				}
+				injected = &rowFault{injected, f.AfterRows}
+				drop = false
+			}
 			break
 		}
 	}
